@@ -2620,6 +2620,17 @@ func (v *View) Stream(streamID uint64) (StreamContext, error) {
 		if stream == nil {
 			continue
 		}
+		// decide the tags that are pending for this stream, HasTag and AllTags
+		// only know decided ones
+		tags := make([]string, 0, len(v.tagDetails))
+		for tn := range v.tagDetails {
+			tags = append(tags, tn)
+		}
+		ids := bitmask.LongBitmask{}
+		ids.Set(uint(streamID))
+		if err := v.prefetchTags(context.Background(), tags, ids); err != nil {
+			return StreamContext{}, err
+		}
 		return StreamContext{
 			s: stream,
 			v: v,
